@@ -130,7 +130,17 @@ func runHist(res *vh.Result, prop string) {
 	}[prop]
 	total := vh.Tiered(n[0], n[1])
 	rn := &vh.Runner{ExtraSock: p.ExtraSock}
-	res.Cases(total, func(i int, rng *vh.Rng) {
+	nconc := 0
+	if prop == "C11" {
+		nconc = vh.Tiered(40, 1500) // concurrent histories checked with porcupine
+		res.Rule += "; plus concurrent histories (4 query clients, 2 notification producers, 1 multicast producer on the full stack) whose recorded call/return/value " +
+			"triples are checked for linearizability against a per-URR fetch-and-increment model (porcupine)"
+	}
+	res.Cases(total+nconc, func(i int, rng *vh.Rng) {
+		if i >= total {
+			c11Concurrent(res, i, rng)
+			return
+		}
 		h := vh.Generate(rng, p)
 		if prop == "C11" {
 			// a quarter of the histories run on a data plane that removes URRs without a final report (as
@@ -234,6 +244,7 @@ func runC01(res *vh.Result) {
 	}, commonAssume...)
 	total := vh.Tiered(400, 6000)
 	rnModel := &vh.Runner{}
+	rnNoRep := &vh.Runner{NoRemoveReport: true}
 	// every fifth history runs on the real gtp5g driver over the simulated kernel: the rule table that is
 	// compared with the model is then the kernel's, and the faults hit the real driver's call sites
 	rnFull := &vh.Runner{NewDriver: func() (forwarder.Driver, func() map[vh.RuleKey]int, func()) {
@@ -246,10 +257,16 @@ func runC01(res *vh.Result) {
 	}}
 	res.Cases(total, func(i int, rng *vh.Rng) {
 		h := vh.Generate(rng, p)
+		if i%5 == 3 {
+			// URR-centred histories for the report-less data plane: create / remove / re-create / query chains on few ids
+			h = vh.Generate(rng, vh.GenProfile{MinOps: 12, MaxOps: 22, MaxNodes: 1, MaxSess: 2, Negative: 0, Reports: 2, RuleChurn: 14, Reassoc: 1, URRHeavy: true})
+		}
 		rn := rnModel
 		if i%5 == 4 {
 			rn = rnFull
 			res.Count("histories_on_real_driver", 1)
+		} else if i%5 == 3 {
+			rn = rnNoRep // URR removal without a final report: the session keeps the URR's record until re-creation
 		}
 		base := rn.Run(h, nil)
 		if faultCrash(res, i, "C01", h, nil, base) {
